@@ -32,6 +32,8 @@ enum Bad {
 	HeaderBatch {
 		class: &'static str,
 		headers: Vec<BlockHeader>,
+		/// hashes of the broken header and of the headers after it
+		not_to_be_stored: Vec<Hash>,
 	},
 	Tx {
 		class: &'static str,
@@ -291,9 +293,26 @@ fn apply_bad(
 				*header_valid,
 			)
 		}
-		Bad::HeaderBatch { class, headers } => {
+		Bad::HeaderBatch { class, headers, not_to_be_stored } => {
 			let sh = subject.header_head().unwrap();
 			let r = subject.sync_block_headers(headers, sh, opts);
+			let fork = headers.last().map(|x| x.total_difficulty() <= sh.total_difficulty).unwrap_or(false);
+			*stats.injected.entry(format!("{}.{}", class, if fork { "not_overtaking_header_head" } else { "overtaking_header_head" })).or_insert(0) += 1;
+			// only a header that is itself valid may be remembered: the broken one and its descendants may not
+			if let Some(x) = not_to_be_stored.iter().find(|x| subject.get_block_header(x).is_ok()) {
+				run.violation(
+					&format!("C06;class={};invalid_header_remembered;{}", class, if r.is_err() { "call_failed" } else { "call_succeeded" }),
+					&format!(
+						"sync_block_headers returned {:?} for a batch of {} headers whose header #{} is invalid; afterwards header {} of the batch is in the header store",
+						r.as_ref().map(|_| ()),
+						headers.len(),
+						headers.len() - not_to_be_stored.len(),
+						x
+					),
+					replay.clone(),
+				);
+				return false;
+			}
 			(class.to_string(), r.is_err(), false)
 		}
 		Bad::Tx { class, tx } => {
@@ -421,21 +440,33 @@ fn run_history(run: &Run, idx: u64, h: &mut Hist, sc: &Scratch, stats: &mut Stat
 							}
 						}
 						let kbad = prng.usize_below(hs.len());
-						hs[kbad].timestamp = if kbad == 0 {
-							h.ledger.header(&hs[0].prev_hash).timestamp
+						let bad_root = prng.bool();
+						if bad_root {
+							// everything right except the commitment to the header MMR of its ancestors
+							let mut v = hs[kbad].prev_root.to_vec();
+							v[prng.usize_below(32)] ^= 1 << prng.below(8);
+							hs[kbad].prev_root = Hash::from_vec(&v);
 						} else {
-							hs[kbad - 1].timestamp
-						};
+							hs[kbad].timestamp = if kbad == 0 {
+								h.ledger.header(&hs[0].prev_hash).timestamp
+							} else {
+								hs[kbad - 1].timestamp
+							};
+						}
 						if h.real_pow {
 							None // re-mining a chain of headers is not worth it here
 						} else {
-							// later headers must still link to the modified one
+							// the hash covers the proof only: the broken header gets a proof (= an identity) of its own,
+							// and the later headers link to it
+							vcommon::world::skip_pow_proof(&mut hs[kbad], &mut prng);
 							for j in kbad + 1..hs.len() {
 								hs[j].prev_hash = hs[j - 1].hash();
 							}
+							let not_to_be_stored: Vec<Hash> = hs[kbad..].iter().map(|x| x.hash()).collect();
 							Some(Bad::HeaderBatch {
-								class: "header_batch_kth_bad",
+								class: if bad_root { "header_batch_kth_bad_prev_root" } else { "header_batch_kth_bad" },
 								headers: hs,
+								not_to_be_stored,
 							})
 						}
 					}
@@ -683,7 +714,7 @@ fn main() {
 		let n = run.counter(&format!("rejected.{}", c)) + run.counter(&format!("rejected.{}@fork", c));
 		run.require(&format!("rejected.{}(+@fork)", c), n, run.tier.pick(1, 8));
 	}
-	for c in ["header_batch_kth_bad", "tx_spends_spent_output", "read_time_truncated_block"] {
+	for c in ["header_batch_kth_bad", "header_batch_kth_bad_prev_root", "header_batch_kth_bad_prev_root.not_overtaking_header_head", "tx_spends_spent_output", "read_time_truncated_block"] {
 		run.require(&format!("rejected.{}", c), run.counter(&format!("rejected.{}", c)), run.tier.pick(2, 20));
 	}
 	run.finish();
